@@ -247,6 +247,16 @@ CALLS = {
     'orthogonalize_left': lambda: (teneva.orthogonalize_left, (tt(), 0), {}),
     'orthogonalize_right': lambda: (teneva.orthogonalize_right, (tt(), 2), {}),
     'truncate': lambda: (teneva.truncate, (tt(), 1e-2), {}),
+    # single-core tensors (d = 1): sweeps have no steps, so nothing is "replaced anyway"
+    'truncate_d1': lambda: (teneva.truncate, ([np.random.default_rng(1).normal(size=(1, 5, 1))], 1e-2), {}),
+    'truncate_d1_noorth': lambda: (teneva.truncate, ([np.random.default_rng(1).normal(size=(1, 5, 1))], 1e-2), dict(orth=False)),
+    'truncate_d1_noorth_stab': lambda: (teneva.truncate, ([np.random.default_rng(1).normal(size=(1, 5, 1))], 1e-2), dict(orth=False, use_stab=True)),
+    'truncate_d2_noorth': lambda: (teneva.truncate, (teneva.orthogonalize(tt((3, 4), 2, 3), 1), 1e-2), dict(orth=False)),
+    'orthogonalize_d1': lambda: (teneva.orthogonalize, ([np.random.default_rng(2).normal(size=(1, 4, 1))], 0), {}),
+    'copy_d1': lambda: (teneva.copy, ([np.random.default_rng(2).normal(size=(1, 4, 1))],), {}),
+    'add_d1': lambda: (teneva.add, ([np.ones((1, 3, 1))], [np.full((1, 3, 1), 2.)]), {}),
+    'mul_d1': lambda: (teneva.mul, ([np.ones((1, 3, 1))], 2.5), {}),
+    'get_many_d1': lambda: (teneva.get_many, ([np.arange(4.).reshape(1, 4, 1)], np.array([[1], [3]])), {}),
     'truncate_svd': lambda: (teneva.truncate, (tt(), 1e-2), dict(is_eigh=False)),
     'truncate_stab': lambda: (teneva.truncate, (tt(), 1e-2), dict(use_stab=True)),
     'truncate_noorth': lambda: (teneva.truncate, (teneva.orthogonalize(tt(), 2), 1e-2), dict(orth=False)),
